@@ -282,6 +282,10 @@ def mask_after_guard(summary):
         top = ev.get('top')
         if top is not None and h < top:
             continue
+        if (lo >> (h + 1)) == (hi >> (h + 1)):
+            # the bits dropped above h are the same for every accepted value (x8..x15 & 7): nothing is merged; whether such
+            # values are legal at all is the accepted-set comparison's business
+            continue
         if not (lo >= -(1 << h) and hi <= (1 << (h + 1)) - 1):
             out.append((ev, 'operand {} with accepted range [{}, {}] (after >> {}) is masked to {} bits: values are wrapped'.format(
                 ev['src'][1], lo, hi, ev['shift'], k)))
@@ -331,3 +335,20 @@ def enumerate_image(summary, width, limit=1 << 20):
         if len(words) > limit:
             raise AnalysisError('image of {} too large to enumerate'.format(summary.name))
     return words
+
+
+def register_spellings_normalised(facts, mnemonics=None):
+    """Is every register operand converted with int(., base=0) (hex / octal / binary spellings of the number) before it is
+    looked up in the register table?  Decided on the interpreted encoders, wherever the conversion and the lookup are
+    written (lookup_register, a helper, a method).  -> (True | False | None when no register operand was seen, [offenders])"""
+    sums = all_summaries(facts)
+    seen, bad = 0, []
+    for m in (mnemonics if mnemonics is not None else [m for m in facts.instructions() if oracle_spec(m) is not None]):
+        s = sums[m]
+        for p, ok in getattr(s, 'lookup_normalised', {}).items():
+            seen += 1
+            if not ok:
+                bad.append((m, p))
+    if not seen:
+        return None, []
+    return not bad, bad
